@@ -123,8 +123,10 @@ func c10OpDesc(op vOp) string {
 }
 
 func c10Phase(op vOp, res vRes) string {
-	if op.T != "" {
-		return "trigger=" + op.T
+	for i, k := range res.Kinds {
+		if k == "link-snap" && i < len(res.Final) && res.Final[i] == "Error" {
+			return "in-link"
+		}
 	}
 	if res.LinkRan {
 		return "after-link"
@@ -133,18 +135,27 @@ func c10Phase(op vOp, res vRes) string {
 }
 
 // c10OpsUnderTest lists the operations under test for a state (without failure).
-func c10OpsUnderTest(a vSnap) []vOp {
+// Refreshes come in two variants: plain, and with a channel switch, a cohort key (new revision only; the API
+// refuses revision+cohort), --ignore-validation and --devmode at once. The quick tier runs only the second
+// variant (it changes a superset of the fields).
+func c10OpsUnderTest(a vSnap, thorough bool) []vOp {
 	var ops []vOp
 	if !a.Installed {
 		return []vOp{{K: "install"}, {K: "install", Dv: true, Ch: "other-channel", IV: true}}
 	}
 	ci := vIndexOf(a.Seq, a.Cur)
-	ops = append(ops, vOp{K: "refresh-new"}, vOp{K: "refresh-new", Ch: "other-channel", Co: "cohort-x", IV: true, Dv: true})
+	if thorough {
+		ops = append(ops, vOp{K: "refresh-new"})
+	}
+	ops = append(ops, vOp{K: "refresh-new", Ch: "other-channel", Co: "cohort-x", IV: true, Dv: true})
 	for p := range a.Seq {
 		if p == ci {
 			continue
 		}
-		ops = append(ops, vOp{K: "refresh-kept", P: p}, vOp{K: "refresh-kept", P: p, Ch: "other-channel", IV: true, Dv: true})
+		if thorough {
+			ops = append(ops, vOp{K: "refresh-kept", P: p})
+		}
+		ops = append(ops, vOp{K: "refresh-kept", P: p, Ch: "other-channel", IV: true, Dv: true})
 		ops = append(ops, vOp{K: "revert-to", P: p}, vOp{K: "revert-to", P: p, NB: true})
 	}
 	return ops
@@ -153,11 +164,11 @@ func c10OpsUnderTest(a vSnap) []vOp {
 func c10Triggers(kind string) []string {
 	switch kind {
 	case "install":
-		return []string{"link", "copy", "op:setup-profiles:Doing", "op:auto-connect:Doing", "op:start-snap-services", "op:update-aliases", "op:setup-snap-save-data"}
+		return []string{"link", "copy", "op:setup-profiles:Doing", "op:auto-connect:Doing", "op:update-aliases", "op:setup-snap-save-data"}
 	case "refresh-new", "refresh-kept":
-		return []string{"link", "copy", "op:setup-profiles:Doing", "op:auto-connect:Doing", "op:start-snap-services", "op:update-aliases", "op:setup-snap-save-data", "op:unlink-snap", "op:stop-snap-services:refresh", "op:remove-snap-aliases"}
+		return []string{"link", "copy", "op:setup-profiles:Doing", "op:auto-connect:Doing", "op:update-aliases", "op:setup-snap-save-data", "op:unlink-snap", "op:remove-snap-aliases"}
 	case "revert-to", "revert":
-		return []string{"link", "op:setup-profiles:Doing", "op:auto-connect:Doing", "op:start-snap-services", "op:update-aliases", "op:unlink-snap", "op:stop-snap-services:refresh", "op:remove-snap-aliases"}
+		return []string{"link", "op:setup-profiles:Doing", "op:auto-connect:Doing", "op:update-aliases", "op:unlink-snap", "op:remove-snap-aliases"}
 	}
 	return nil
 }
@@ -190,6 +201,34 @@ func c10Gen(thorough bool) func(st vState) []vOp {
 		}
 		return ops
 	}
+}
+
+// c10GenShape is the narrower alphabet used to reach deeper sequence shapes: only operations that change
+// the kept revisions, the current one or the revert status, and refresh.retain raised to 4 before the
+// install and dropped back to the default later (more revisions kept than the setting allows).
+func c10GenShape(st vState) []vOp {
+	a := st.A
+	retainSet := strings.Contains(st.Key, " retain=")
+	if !a.Installed {
+		if retainSet {
+			return []vOp{{K: "install"}}
+		}
+		return []vOp{{K: "install"}, {K: "set-retain", V: "4"}}
+	}
+	if !a.Active {
+		return nil
+	}
+	ci := vIndexOf(a.Seq, a.Cur)
+	ops := []vOp{{K: "refresh-new"}}
+	for p := range a.Seq {
+		if p != ci {
+			ops = append(ops, vOp{K: "refresh-kept", P: p}, vOp{K: "revert-to", P: p}, vOp{K: "revert-to", P: p, NB: true})
+		}
+	}
+	if retainSet {
+		ops = append(ops, vOp{K: "set-retain", V: ""})
+	}
+	return ops
 }
 
 type c10Runner struct {
@@ -275,9 +314,7 @@ func (cr *c10Runner) checkState(st vState) {
 			// the trigger names a backend operation this change does not perform: the change went through
 			r.Add("triggers_not_reached", 1)
 			r.Distinct("trigger_not_reached", op.K+":"+op.T)
-			if os.Getenv("VERIF_C10_DEBUG") != "" {
-				fmt.Println("NOT-REACHED", op.K, op.T)
-			}
+			r.Info("trigger_not_reached:"+op.K+":"+op.T, eng.JSON(st.Path))
 			rebuild()
 			return res, false
 		}
@@ -352,7 +389,8 @@ func (cr *c10Runner) checkState(st vState) {
 		return res, false
 	}
 
-	for _, op := range c10OpsUnderTest(st.A) {
+	withTriggers := r.Thorough() || st.Tag == "full"
+	for _, op := range c10OpsUnderTest(st.A, r.Thorough()) {
 		limit := -1
 		for k := 0; limit < 0 || k <= limit; k++ {
 			op.F, op.T = k+1, ""
@@ -367,6 +405,9 @@ func (cr *c10Runner) checkState(st vState) {
 			r.Max("max_failure_points", int64(limit+1))
 		}
 		if limit < 0 {
+			continue
+		}
+		if !withTriggers {
 			continue
 		}
 		for _, t := range c10Triggers(op.K) {
@@ -417,9 +458,10 @@ func (s *verifC10Suite) TestVerifC10(c *C) {
 		vFinish(r, "replay of one stored case")
 	}
 
-	depth := r.Pick(4, 5)
+	depth := r.Pick(4, 5) // full generating alphabet
+	shapeDepth := r.Pick(6, 7)
 	if v := os.Getenv("VERIF_C10_DEPTH"); v != "" {
-		fmt.Sscanf(v, "%d", &depth)
+		fmt.Sscanf(v, "%d,%d", &depth, &shapeDepth)
 	}
 	statesFile := filepath.Join(eng.WorkDir(), "pmap", "C10", "states-"+r.Tier+".json")
 	var states []vState
@@ -427,6 +469,24 @@ func (s *verifC10Suite) TestVerifC10(c *C) {
 		t0 := time.Now()
 		var trans int
 		states, trans = vBFS("C10", c, []vPath{{}}, c10Gen(r.Thorough()), depth, 16)
+		for i := range states {
+			states[i].Tag = "full"
+		}
+		if shapeDepth > 0 {
+			seen := map[string]bool{}
+			for _, s := range states {
+				seen[s.Key] = true
+			}
+			more, t2 := vBFS("C10", c, []vPath{{}}, c10GenShape, shapeDepth, 16)
+			trans += t2
+			for _, s := range more {
+				if !seen[s.Key] {
+					seen[s.Key] = true
+					s.Tag = "shape"
+					states = append(states, s)
+				}
+			}
+		}
 		os.MkdirAll(filepath.Dir(statesFile), 0755)
 		if err := os.WriteFile(statesFile, []byte(eng.JSON(states)), 0644); err != nil {
 			eng.HarnessError("cannot write %s: %v", statesFile, err)
@@ -437,7 +497,7 @@ func (s *verifC10Suite) TestVerifC10(c *C) {
 		for _, s := range states {
 			byDepth[fmt.Sprint(s.Depth)]++
 		}
-		r.Info("bounds", map[string]interface{}{"generation_depth": depth, "states_by_depth": byDepth, "generation_seconds": int(time.Since(t0).Seconds())})
+		r.Info("bounds", map[string]interface{}{"generation_depth": depth, "shape_generation_depth": shapeDepth, "states_by_depth": byDepth, "generation_seconds": int(time.Since(t0).Seconds())})
 		fmt.Printf("C10: %d states (depth<=%d) %v in %v\n", len(states), depth, byDepth, time.Since(t0))
 		if os.Getenv("VERIF_C10_LIST") != "" {
 			for _, s := range states {
